@@ -88,7 +88,7 @@ func (reader *Reader) ReadTypedMsg() (types.ClientMessage, int, error) {
 
 	n, err := reader.ReadUntypedMsg()
 	if err != nil {
-		return 0, 0, err
+		return typed, 0, err
 	}
 
 	return typed, n, nil
